@@ -34,7 +34,9 @@ class CycleNode(Node):
         super().__init__(token)
         self.name = name
         self.items = tuple(items)
-        self.cycle_hash = hash((self.name, self.items))
+        # The group's name and items as written. A `hash()` of them would collide
+        # (-1 and -2, 1 and 1.0) and, for strings, differ between processes.
+        self.cycle_hash = (self.name, tuple(str(item) for item in self.items))
         self.blank = False
 
     def __str__(self) -> str:
